@@ -39,6 +39,7 @@ def run(ctx, rep):
     rep.run(RP.rule_dispatch_branches_contribute, ctx, rep, "A10")
     rep.run(RP.rule_operator_bindings_by_evaluation, ctx, rep, "A11")
     rep.run(RP.rule_class_block_by_evaluation, ctx, rep, "A12", part="members")
+    rep.run(RP.rule_special_cased_members_keep_their_binding, ctx, rep, "A13")
     # A8: the emitter's configuration (keyword list, ignore list, ...) is never modified while wrapping
     rep.run(RA.rule_mutate_only_fresh, ctx, rep, "A8", "gtwrap/pybind_wrapper", {}, min_sites=3)
     rep.run(RF.rule_locals_defined, ctx, rep, "U1", packages=("gtwrap/pybind_wrapper.py",), min_functions=3)
